@@ -303,6 +303,49 @@ theorem joinFields_cons_cons {α : Type} (x : List α) (l : List (List α)) (y :
   rw [appendLast_eq (x :: l) (by simp)]
   rw [List.getLast?_eq_some_getLast (by simp : x :: l ≠ [])]
 
+theorem joinFields_cons2 {α : Type} (x y : List α) (t r : List (List α)) :
+    joinFields (x :: y :: t) r = x :: joinFields (y :: t) r := by
+  cases r with
+  | nil => simp [joinFields_nil_right]
+  | cons rf rs => simp [joinFields_cons_cons, appendLast]
+
+theorem joinFields_single {α : Type} (x y : List α) (ys : List (List α)) :
+    joinFields [x] (y :: ys) = (x ++ y) :: ys := by
+  simp [joinFields_cons_cons, appendLast]
+
+theorem joinFields_ne_nil {α : Type} (x : List α) (l m : List (List α)) :
+    joinFields (x :: l) m ≠ [] := by
+  cases m with
+  | nil => simp [joinFields_nil_right]
+  | cons y ys =>
+    cases l with
+    | nil => simp [joinFields_single]
+    | cons x2 t => simp [joinFields_cons2]
+
+theorem joinFields_assoc {α : Type} (l m r : List (List α)) :
+    joinFields (joinFields l m) r = joinFields l (joinFields m r) := by
+  induction l with
+  | nil => simp [joinFields_nil_left]
+  | cons x t ih =>
+    cases t with
+    | nil =>
+      cases m with
+      | nil => simp [joinFields_nil_right, joinFields_nil_left]
+      | cons y ys =>
+        cases ys with
+        | nil =>
+          cases r with
+          | nil => simp [joinFields_nil_right]
+          | cons z zs => simp [joinFields_single]
+        | cons y2 t2 => simp [joinFields_single, joinFields_cons2]
+    | cons x2 t2 =>
+      rw [joinFields_cons2, joinFields_cons2]
+      obtain ⟨a, as, ha⟩ : ∃ a as, joinFields (x2 :: t2) m = a :: as := by
+        cases h : joinFields (x2 :: t2) m with
+        | nil => exact absurd h (joinFields_ne_nil _ _ _)
+        | cons a as => exact ⟨a, as, rfl⟩
+      rw [ha, joinFields_cons2, ← ha, ih]
+
 /-! ## Quote removal -/
 
 theorem skipQuotes_eq_filter (cs : List AttrChar) :
